@@ -68,6 +68,23 @@ fn main() {
         i += 1;
     }
     match args[1].as_str() {
+        "refdecode" => {
+            // mzv refdecode <hex> [zlib]  — triage helper: what does the reference decoder say?
+            let hex = pos.first().cloned().unwrap_or_default();
+            let bytes: Vec<u8> = (0..hex.len() / 2).map(|i| u8::from_str_radix(&hex[2 * i..2 * i + 2], 16).unwrap()).collect();
+            let zl = pos.get(1).map(|s| s == "zlib").unwrap_or(false);
+            let r = refimpl::inflate::inflate(&bytes, refimpl::inflate::Opts::fmt(zl).with_tokens());
+            println!("verdict {:?} out {} bytes", r.verdict, r.out.len());
+            for b in &r.blocks {
+                println!("block type {} final {} bits {}..{} out {}..{} hlit {} hdist {} hclen {} complete {}\n  cl {:?}\n  litlen {:?}\n  dist {:?}", b.btype, b.bfinal, b.start_bit, b.end_bit, b.out_start, b.out_end, b.hlit, b.hdist, b.hclen, b.complete, b.cl_lens, b.litlen_lens, b.dist_lens);
+            }
+            println!("tokens {:?}", &r.tokens[..r.tokens.len().min(40)]);
+            let mut d = miniz_oxide::inflate::core::DecompressorOxide::new();
+            let mut out = vec![0u8; 1 << 20];
+            let res = miniz_oxide::inflate::core::decompress(&mut d, &bytes, &mut out, 0, (if zl { 1 } else { 0 }) | 4 | 2);
+            println!("miniz_oxide (flat, HAS_MORE_INPUT): {:?} state {}", res, mon::common::state_name(d.verif_state()));
+            std::process::exit(0);
+        }
         "selftest" => {
             let ok = selftest::run(seed);
             std::process::exit(if ok { 0 } else { 2 });
